@@ -4,13 +4,15 @@
     what every handler was handed, both as (connection, name index, digest of the canonical
     argument tree).  The handler's name index is the name the HANDLER was registered for, so an
     event given to a handler of another name shows up as a foreign key. *)
-From SioV Require Import Base.GoSem Sio.EndToEnd.
+From Coq Require Import Permutation.
+From SioV Require Import Base.GoSem.
+From SioV Require Import Sio.EndToEnd.
 
 Definition key := (N * N * N)%type.          (* connection, name index, digest *)
 
 Definition key_eqb (a b : key) : bool :=
   let '(a1, a2, a3) := a in let '(b1, b2, b3) := b in
-  N.eqb a1 b1 && N.eqb a2 b2 && N.eqb a3 b3.
+  N.eqb a3 b3 && N.eqb a2 b2 && N.eqb a1 b1.
 
 Fixpoint count (x : key) (l : list key) : N :=
   match l with
@@ -18,11 +20,25 @@ Fixpoint count (x : key) (l : list key) : N :=
   | y :: l' => if key_eqb x y then N.succ (count x l') else count x l'
   end.
 
-(** multiset equality / inclusion by counting *)
-Definition ms_eq (a b : list key) : bool :=
-  forallb (fun x => N.eqb (count x a) (count x b)) (a ++ b).
-Definition ms_sub (a b : list key) : bool :=
-  forallb (fun x => N.leb (count x a) (count x b)) a.
+(** multiset equality / inclusion by cancelling one occurrence at a time *)
+Fixpoint remove_one (x : key) (l : list key) : option (list key) :=
+  match l with
+  | [] => None
+  | y :: l' => if key_eqb x y then Some l'
+               else match remove_one x l' with Some r => Some (y :: r) | None => None end
+  end.
+
+Fixpoint ms_eq (a b : list key) : bool :=
+  match a with
+  | [] => match b with [] => true | _ => false end
+  | x :: a' => match remove_one x b with Some b' => ms_eq a' b' | None => false end
+  end.
+
+Fixpoint ms_sub (a b : list key) : bool :=
+  match a with
+  | [] => true
+  | x :: a' => match remove_one x b with Some b' => ms_sub a' b' | None => false end
+  end.
 
 (** per name of the scenario: index, last handler parameter is a string, the name is one the
     codec round-trips (C09's side condition; false = name ending in a backslash while that
@@ -32,14 +48,16 @@ Definition nrow := (N * bool * bool)%type.
 Definition erow := (key * bool)%type.
 
 (** flags: recovery on, server->client, client strips a trailing string (code as it stands) *)
-Definition ccase := ((bool * bool * bool) * list nrow * list erow * list key)%type.
+(** last component: how often the offset-probe handler (one more string parameter than the
+    emitter sends) saw a non-empty / an empty extra argument *)
+Definition ccase := ((bool * bool * bool) * list nrow * list erow * list key * (N * N))%type.
 
 Definition find_name (i : N) (ns : list nrow) : option nrow :=
   find (fun r => N.eqb (fst (fst r)) i) ns.
 
 (** the model's side condition for one emitted event, through [handler_runs] of Sio/EndToEnd.v *)
 Definition event_ok (c : ccase) (e : erow) : bool :=
-  let '(fl, ns, _, _) := c in
+  let '(fl, ns, _, _, _) := c in
   let '(rec, dir, strips) := fl in
   let '(_, ni, _) := fst e in
   match find_name ni ns with
@@ -51,31 +69,56 @@ Definition event_ok (c : ccase) (e : erow) : bool :=
 (** an event outside C09's side condition breaks the connection (parse error), after which the
     rest of the history is only constrained to be a part of what was sent *)
 Definition conn_safe (c : ccase) : bool :=
-  let '(_, ns, em, _) := c in
+  let '(_, ns, em, _, _) := c in
   forallb (fun e => match find_name (snd (fst (fst e))) ns with
                     | Some (_, _, name_ok) => name_ok | None => false end) em.
 
 Definition predicted (c : ccase) : list key :=
-  let '(_, _, em, _) := c in map fst (filter (event_ok c) em).
+  let '(_, _, em, _, _) := c in map fst (filter (event_ok c) em).
 
 (** Property oracle on the observation alone: every emitted event was handed exactly once, intact,
     to the handler registered for its name on its connection, and nothing else was handed. *)
 Definition oracle (c : ccase) : bool :=
-  let '(_, _, em, del) := c in ms_eq del (map fst em).
+  let '(_, _, em, del, _) := c in ms_eq del (map fst em).
 
 (** Correspondence: the implementation delivered what the model predicts (including the predicted
     non-deliveries), and the harness's classification equals the model's side condition. *)
-Definition agree (c : ccase) : bool :=
-  let '(_, _, em, del) := c in
-  forallb (fun e => Bool.eqb (snd e) (event_ok c e)) em
-  && (if conn_safe c then ms_eq del (predicted c) else ms_sub del (predicted c)).
+(** the model's [stamp]: does the wire event carry one more argument than was emitted? *)
+Definition model_appends_offset (rec dir strips : bool) : bool :=
+  Nat.ltb 2 (length (snd (stamp N N N (fun o => o) (mkCfg rec dir strips) ((0%N, [1%N; 2%N]), 7%N)))).
 
-(** the oracle is sound for multiset equality in the sense needed: equal counts for every key *)
-Lemma ms_eq_counts : forall a b, ms_eq a b = true ->
-  forall x, In x (a ++ b) -> count x a = count x b.
+Definition agree (c : ccase) : bool :=
+  let '(fl, _, em, del, (probe_set, probe_zero)) := c in
+  let '(rec, dir, strips) := fl in
+  forallb (fun e => Bool.eqb (snd e) (event_ok c e)) em
+  && (if conn_safe c then ms_eq del (predicted c) else ms_sub del (predicted c))
+  (* the handler with an extra parameter sees the appended offset exactly when the model appends one *)
+  && (if model_appends_offset rec dir strips then N.eqb probe_zero 0 else N.eqb probe_set 0).
+
+(** [ms_eq] is sound: it only accepts permutations (so equal multiplicity of every key) *)
+Lemma key_eqb_eq : forall a b, key_eqb a b = true -> a = b.
 Proof.
-  intros a b H x Hx. unfold ms_eq in H. rewrite forallb_forall in H.
-  apply N.eqb_eq. now apply H.
+  intros [[a1 a2] a3] [[b1 b2] b3] H. simpl in H.
+  apply andb_true_iff in H as [H H1]. apply andb_true_iff in H as [H3 H2].
+  apply N.eqb_eq in H1, H2, H3. now subst.
+Qed.
+
+Lemma remove_one_perm : forall x l r, remove_one x l = Some r -> Permutation.Permutation l (x :: r).
+Proof.
+  induction l as [|y l IH]; intros r H; simpl in H; [discriminate|].
+  destruct (key_eqb x y) eqn:E.
+  - apply key_eqb_eq in E. inversion H; subst. reflexivity.
+  - destruct (remove_one x l) as [r'|]; [|discriminate]. inversion H; subst.
+    eapply Permutation.perm_trans; [apply Permutation.perm_skip, (IH r' eq_refl) | apply Permutation.perm_swap].
+Qed.
+
+Lemma ms_eq_perm : forall a b, ms_eq a b = true -> Permutation.Permutation a b.
+Proof.
+  induction a as [|x a IH]; intros b H; simpl in H.
+  - destruct b; [constructor | discriminate].
+  - destruct (remove_one x b) as [b'|] eqn:E; [|discriminate].
+    eapply Permutation.perm_trans; [| apply Permutation.Permutation_sym, (remove_one_perm _ _ _ E)].
+    constructor. now apply IH.
 Qed.
 
 (** both at once (the driver evaluates the two separately only when this fails) *)
